@@ -35,8 +35,9 @@ func vSuper(spec *Spec) *supervisor.Spec {
 
 func verifC11_MuxReload() {
 	// the two generations differ in backend, rewrite target, X-Forwarded-For and body limit
-	oldSpec := &Spec{ClientMaxBodySize: 2, XForwardedFor: false, Rules: []*Rule{{Paths: []*Path{{PathPrefix: "/", RewriteTarget: "/old/", Backend: "old"}}}}}
-	newSpec := &Spec{ClientMaxBodySize: -1, XForwardedFor: true, Rules: []*Rule{{Paths: []*Path{{PathPrefix: "/", RewriteTarget: "/new/", Backend: "new"}}}}}
+	cacheSize := uint32(verifChoose("cacheSize", 2) * 5) // the same in both generations: 0 or 5
+	oldSpec := &Spec{CacheSize: cacheSize, ClientMaxBodySize: 2, XForwardedFor: false, Rules: []*Rule{{Paths: []*Path{{PathPrefix: "/", RewriteTarget: "/old/", Backend: "old"}}}}}
+	newSpec := &Spec{CacheSize: cacheSize, ClientMaxBodySize: -1, XForwardedFor: true, Rules: []*Rule{{Paths: []*Path{{PathPrefix: "/", RewriteTarget: "/new/", Backend: "new"}}}}}
 	mapper := &vGenMapper{old: &vBackend{status: 200}, nw: &vBackend{status: 201}}
 	m := &mux{}
 	m.inst.Store(&muxInstance{spec: &Spec{}})
@@ -48,6 +49,15 @@ func verifC11_MuxReload() {
 		std := &http.Request{Method: "POST", Host: "h", URL: &url.URL{Path: "/x"}, Header: http.Header{},
 			Body: &vReqBody{data: make([]byte, bodyLen)}, ContentLength: int64(bodyLen), RemoteAddr: "9.9.9.9:1"}
 		return &vWriter{hdr: http.Header{}}, std
+	}
+	if verifBool("earlierRequestUnderTheOldGeneration") {
+		// an earlier request for the same host/method/path (it may populate the route cache)
+		w0, r0 := mk()
+		r0.Body, r0.ContentLength = &vReqBody{}, 0
+		m.ServeHTTP(w0, r0)
+		verifAssert(mapper.old.calls == 1 && w0.status == 200, "earlier-request-served-by-the-old-generation")
+		mapper.old.calls = 0
+		verifCover("cache-possibly-warm")
 	}
 	var wg sync.WaitGroup
 	wg.Add(1)
